@@ -24,7 +24,7 @@ KIND = {"mps_monomial_poly": "monomial", "mps_secular_equation": "secular", "mps
 
 CONFIGS_EXTRA = [
     ["-a", "u", "-G", "a", "-o", "5"], ["-a", "s", "-G", "a", "-o", "5"], ["-a", "u", "-G", "a", "-o", "15"],
-    ["-a", "s", "-G", "a", "-c"], ["-a", "s", "-G", "a", "-o", "30", "-t", "d"], ["-a", "u", "-G", "a", "-o", "30", "-t", "d"],
+    ["-a", "s", "-G", "a", "-o", "30", "-t", "d"], ["-a", "u", "-G", "a", "-o", "30", "-t", "d"],
     ["-a", "u", "-G", "i", "-b"], ["-a", "s", "-G", "i", "-r"], ["-a", "u", "-G", "a", "-o", "30", "-r", "-b"],
     ["-a", "s", "-G", "a", "-o", "30", "-b", "-t", "d"],
 ]
@@ -32,6 +32,17 @@ CONFIGS_THOROUGH = [
     ["-a", "u", "-G", "a", "-o", "200"], ["-a", "s", "-G", "a", "-o", "200"], ["-a", "u", "-G", "a", "-o", "60", "-c"],
     ["-a", "s", "-G", "i", "-t", "d", "-r"], ["-a", "u", "-G", "i", "-t", "d", "-b"],
 ]
+
+
+def sf(x):
+    """float for messages; never raises"""
+    if x is None: return float("inf")
+    try: return float(x)
+    except OverflowError: return float("inf") if x > 0 else float("-inf")
+
+
+def fdisc(d):
+    return [("%.17g" % sf(x)) if x is not None else "inf" for x in d]
 
 
 def with_threads(o):
@@ -75,7 +86,7 @@ def trim(poly):
 
 def build_cases(ctx):
     q = ctx.quick()
-    cases = G.standard_cases(ctx.rng, ctx.pick(84, 1500), maxdeg=ctx.pick(14, 40))
+    cases = G.standard_cases(ctx.rng, ctx.pick(55, 1500), maxdeg=ctx.pick(12, 40))
     cases += G.c01_targeted_cases(ctx.rng, maxdeg=ctx.pick(12, 30), big=not q)
     if not q:
         cases += G.c01_targeted_cases(ctx.rng, maxdeg=20, big=True)
@@ -87,13 +98,18 @@ def build_cases(ctx):
         per = 2 if c["cls"] not in ("secular", "(x-a)^n", "(x-a)^n-2^-k", "roots-1+-2^-k", "huge-ratio") else 3
         for j in range(per):
             o = configs[k % len(configs)]; k += 1
+            if q and c["degree"] > 6 and "-o" in o and int(o[o.index("-o") + 1]) > 30:
+                o = [("30" if j > 0 and o[j - 1] == "-o" else x) for j, x in enumerate(o)]      # quick tier: cost of the certificate
             if c["cls"] == "chebyshev" and alg_of(o) == "classic":
                 o = ["-a", "s"] + o[2:]                   # classic algorithm on a Chebyshev input crashes: C03's finding
             co.append((c, o))
-    # every secular-form input also once under the classic algorithm with the default options (C19's finding)
+    # every secular input also once under the classic algorithm with the default options (C19's finding), and
+    # the equation with a zero leading coefficient under both algorithms
     for c in cases:
-        if c["cls"] == "secular" and c["name"].startswith("secform"):
+        if c["cls"] == "secular":
             co.append((c, with_threads(["-a", "u", "-G", "i"])))
+        if c["cls"] == "leading-zero":
+            co.append((c, with_threads(["-a", "u", "-G", "i"]))); co.append((c, with_threads(["-a", "s", "-G", "i"])))
     return co
 
 
@@ -112,6 +128,15 @@ def judge(ctx, rec, stats, samples, nontrivial):
         deg = len(trim(rec["poly"])) - 1
         if deg != declared: stats["a:leading-zero-coefficient(declared %s)" % ("> actual" if declared > deg else "< actual")] += 1
     ev += 1
+    if rec["poly"] is not None and c.get("coeffs"):
+        # the equation the solver holds (deflated polynomial as exported + zero_roots) is the one that was written
+        mine = trim([(Fr(a), Fr(b)) for a, b in c["coeffs"]]); theirs = trim(rec["poly"])
+        same = len(mine) == len(theirs) and all(S.cmul(x, theirs[-1]) == S.cmul(y, mine[-1]) for x, y in zip(mine, theirs))
+        if not same:
+            ctx.violation("a:equation-held-differs-from-input:%s:%s" % (cc, c["name"]),
+                          "the deflated equation exported by the solver together with zero_roots=%d is not the input equation (%s)" % (zr, c["name"]), dict(rp, clause="a"))
+            stats["VIOLATION:a-input:" + cc] += 1
+        else: stats["a:equation-held-equals-input"] += 1
     if n + zr != deg or len(r.roots) != n or r.meta.get("n") != n:
         ctx.violation("a:count:%s:%s" % (cc, c["name"]),
                       "%d approximations + %d zero roots returned for an equation of degree %s (declared %s): %s %s"
@@ -131,32 +156,32 @@ def judge(ctx, rec, stats, samples, nontrivial):
     for i in range(n):
         if discs[i][2] is None: stats["non-finite-radius(no claim)"] += 1
     try:
-        ans = e2e.count_discs_bounds(orc, [discs[i] for i in fin]) if fin else []
+        ans, covered, uncovered = e2e.judge_discs(orc, [discs[i] for i in fin]) if fin else ([], [], [])
     except Exception as e:
-        ctx.notes.append("oracle count failed for %s: %r" % (c["name"], e)); stats["oracle-error"] += 1
+        ctx.notes.append("oracle query failed for %s: %r" % (c["name"], e)); stats["oracle-error"] += 1
         return ev
     # ---- (b) and (d)
     for i, (lo, hi) in zip(fin, ans):
         st = r.roots[i].status
         ev += 1
-        info = dict(rp, root=i, status=st, disc=[str(x) for x in discs[i]], disc_approx=e2e.fdisc(discs[i]), oracle=[lo, hi])
+        info = dict(rp, root=i, status=st, disc=[str(x) for x in discs[i]], disc_approx=fdisc(discs[i]), oracle=[lo, hi])
         if hi == 0:
             ctx.violation("b:no-root-in-disc:%s:%s" % (cc, c["name"]),
                           "returned disc %d (status %s) contains no root (certified): centre (%.17g, %.17g), radius %.3g; %s %s; last phase %s"
-                          % (i, S.STATUS[st], float(discs[i][0]), float(discs[i][1]), float(discs[i][2]), c["name"], " ".join(opts), cc),
+                          % (i, S.STATUS[st], sf(discs[i][0]), sf(discs[i][1]), sf(discs[i][2]), c["name"], " ".join(opts), cc),
                           dict(info, clause="b"))
             stats["VIOLATION:b:" + cc] += 1
         elif lo >= 1:
             stats["b:contains-root:" + cc.split(":")[1]] += 1
             nontrivial.add((c["name"], tuple(opts), i))
         else:
-            stats["b:undecided(straddles)"] += 1
+            stats["b:undecided(straddles)"] += 1; stats["undecided-case:b:%s %s" % (c["name"], " ".join(opts))] += 1
         if st in (S.ST_ISOLATED, S.ST_APPROX):
             ev += 1
             if lo >= 2:
                 ctx.violation("d:several-roots-in-%s-disc:%s:%s" % (S.STATUS[st].lower(), cc, c["name"]),
                               "disc %d reported %s contains at least %d roots counted with multiplicity (certified): centre (%.17g, %.17g), radius %.3g; %s %s"
-                              % (i, S.STATUS[st], lo, float(discs[i][0]), float(discs[i][1]), float(discs[i][2]), c["name"], " ".join(opts)),
+                              % (i, S.STATUS[st], lo, sf(discs[i][0]), sf(discs[i][1]), sf(discs[i][2]), c["name"], " ".join(opts)),
                               dict(info, clause="d"))
                 stats["VIOLATION:d:" + cc] += 1
             elif lo == 1 and hi == 1: stats["d:exactly-one"] += 1
@@ -169,30 +194,28 @@ def judge(ctx, rec, stats, samples, nontrivial):
     if len(fin) < n:
         stats["c:trivial(some radius not finite)"] += 1
     else:
-        zero = [(Fr(0), Fr(0), Fr(0))] * (1 if zr > 0 else 0)
-        try:
-            inner = [e2e.inner_disc(d) or (d[0], d[1], Fr(0)) for d in discs]
-            orc.cover(inner + zero)
-            if not orc.all_covered:
-                orc.cover(discs + zero)
-        except Exception as e:
-            ctx.notes.append("oracle cover failed for %s: %r" % (c["name"], e)); stats["oracle-error"] += 1
-            return ev
-        if orc.all_covered: stats["c:all-covered"] += 1
-        elif any(orc.uncovered):
-            tiny = orc.roots
-            js = [j for j, u in enumerate(orc.uncovered) if u]
+        # The zero roots are reported as a count: the claim is "0 is a root of multiplicity zero_roots", exact, and
+        # true of the equation judged here (its zero_roots lowest coefficients are 0 - checked above against the
+        # input as generated).  The oracle's tiny disc that contains 0 holds exactly that root, so it is exempt.
+        tiny = orc.roots
+        exempt = set(j for j, t in enumerate(tiny) if zr > 0 and t["re"] ** 2 + t["im"] ** 2 <= t["radius"] ** 2)
+        covered = [cv or j in exempt for j, cv in enumerate(covered)]
+        uncovered = [u and j not in exempt for j, u in enumerate(uncovered)]
+        if zr > 0 and len(exempt) != 1: stats["c:zero-root-tiny-disc-not-identified"] += 1
+        if all(covered): stats["c:all-covered"] += 1
+        elif any(uncovered):
+            js = [j for j, u in enumerate(uncovered) if u]
             ctx.violation("c:root-not-covered:%s:%s" % (cc, c["name"]),
                           "root(s) near %s of %s lie in no returned disc (certified); %s"
-                          % (["(%.17g, %.17g) mult %d" % (float(tiny[j]["re"]), float(tiny[j]["im"]), tiny[j]["mult"]) for j in js[:4]], c["name"], " ".join(opts)),
+                          % (["(%.17g, %.17g) mult %d" % (sf(tiny[j]["re"]), sf(tiny[j]["im"]), tiny[j]["mult"]) for j in js[:4]], c["name"], " ".join(opts)),
                           dict(rp, clause="c", uncovered_roots=[[str(tiny[j]["re"]), str(tiny[j]["im"]), tiny[j]["mult"]] for j in js],
-                               discs=[e2e.fdisc(d) for d in discs]))
+                               discs=[fdisc(d) for d in discs]))
             stats["VIOLATION:c:" + cc] += 1
-        else: stats["c:undecided"] += 1
+        else: stats["c:undecided"] += 1; stats["undecided-case:c:%s %s" % (c["name"], " ".join(opts))] += 1
     if len(samples) < 8 and (len(samples) < 4 or c["cls"] not in [s["class"] for s in samples]):
         i0 = fin[0] if fin else None
         samples.append({"case": c["name"], "class": c["cls"], "opts": opts, "config": cc, "degree": deg, "zero_roots": zr,
-                        "disc0": e2e.fdisc(discs[i0]) if i0 is not None else None, "status0": S.STATUS[r.roots[i0].status] if i0 is not None else None,
+                        "disc0": fdisc(discs[i0]) if i0 is not None else None, "status0": S.STATUS[r.roots[i0].status] if i0 is not None else None,
                         "oracle_count0": list(ans[0]) if ans else None, "oracle_target_log2": rec.get("target")})
     return ev
 
@@ -209,37 +232,50 @@ def run(ctx):
     else:
         co = build_cases(ctx)
     ctx.log("running %d solves" % len(co))
-    recs = e2e.run_records(ctx, binary, co, env, timeout=ctx.pick(100, 600))
+    recs = e2e.run_records(ctx, binary, co, env, timeout=ctx.pick(30, 600))
     nfloat = mark_exact_float_inputs(recs)
     ctx.log("solves done")
-    e2e.certify_records(ctx, recs, max_bits=ctx.pick(400, 3400), max_degree=ctx.pick(20, 40))
+    # resolution cap by degree (cost of a certificate ~ degree^2 * bits^2)
+    if ctx.quick(): cap = lambda d: 1300 if d <= 2 else 700 if d <= 4 else 420 if d <= 8 else 280
+    else: cap = lambda d: 3400 if d <= 8 else 2000 if d <= 16 else 1200 if d <= 24 else 700
+    groups = e2e.certify_records_grouped(ctx, recs, max_bits=cap, max_degree=ctx.pick(20, 40), timeout=ctx.pick(45, 900))
     ctx.log("certification done: %d of %d certified" % (sum(1 for r in recs if r["oracle"] is not None), len(recs)))
     stats = collections.Counter(); samples = []; nontrivial = set(); evaluations = 0
-    lists = []
+    lists = []; grouped = set()
+    for g in groups:
+        for rec in g: grouped.add(id(rec))
     for rec in recs:
         if rec["res"].kind != "ok":
             stats["skipped:" + rec["res"].kind] += 1          # errors, crashes, time-outs: C03's business
+            stats["skipped-case:%s:%s %s" % (rec["res"].kind, rec["case"]["name"], " ".join(rec["opts"]))] += 1
             continue
         lists.append(rec)
     # judge in parallel (each record owns its oracle process); violations are recorded afterwards, in order
     class Buf:
         def __init__(s): s.v = []; s.notes = []
         def violation(s, *a): s.v.append(a)
-    def one(rec):
-        b = Buf(); st = collections.Counter(); sm = []; nt = set()
-        try: ev = judge(b, rec, st, sm, nt)
-        except Exception as e:
-            ev = 0; b.notes.append("judge failed for %s: %r" % (rec["case"]["name"], e)); st["judge-error"] += 1
+    def one(g):          # the records of a group share one oracle process: judged one after the other
+        b = Buf(); st = collections.Counter(); sm = []; nt = set(); ev = 0
+        for rec in g:
+            try: ev += judge(b, rec, st, sm, nt)
+            except Exception as e:
+                b.notes.append("judge failed for %s: %r" % (rec["case"]["name"], e)); st["judge-error"] += 1
         return b, st, sm, nt, ev
-    for b, st, sm, nt, ev in e2e.par_map(one, lists):
+    work = groups + [[rec] for rec in lists if id(rec) not in grouped]
+    for b, st, sm, nt, ev in e2e.par_map(one, work):
         for a in b.v: ctx.violation(*a)
         ctx.notes.extend(b.notes)
         stats.update(st); nontrivial |= nt; evaluations += ev
         for s in sm:
             if len(samples) < 8 and (len(samples) < 4 or s["class"] not in [x["class"] for x in samples]): samples.append(s)
-    e2e.close_records(recs)
+    for g in groups:
+        try: g[0]["oracle"].close()
+        except Exception: pass
     ctx.log("judged")
     judged = [r for r in lists if r["oracle"] is not None]
+    detail = {k: v for k, v in stats.items() if k.startswith(("undecided-case:", "skipped-case:"))}
+    for k in detail: del stats[k]
+    slow = sorted(((round(r["res"].wall, 1), r["case"]["name"], " ".join(r["opts"])) for r in recs if r["res"].wall > 15), reverse=True)[:20]
     undec = sum(v for k, v in stats.items() if "undecided" in k)
     cov = {"evaluations": evaluations, "distinct_nontrivial": len(nontrivial),
            "rule": "one evaluation = one clause instance (count identity per solve, inclusion per disc, exactly-one per isolated/approximated disc, coverage per solve); "
@@ -252,7 +288,8 @@ def run(ctx):
            "config_histogram": dict(collections.Counter(cfg_class(r) for r in lists)),
            "options_histogram": dict(collections.Counter(" ".join(x for x in r["opts"] if x not in ("-j", "1")) for r in recs)),
            "degree_histogram": dict(collections.Counter(r["res"].parsed_degree for r in lists)),
-           "exact_floating_point_inputs": nfloat, "samples": samples,
+           "exact_floating_point_inputs": nfloat, "undecided_and_skipped_cases": sorted(detail)[:60], "slow_solves": slow,
+           "slow_certificates": sorted(set((r.get("cert_s", 0), r["case"]["name"], len(r["poly"]) - 1, r.get("target")) for r in recs if r.get("cert_s", 0) > 10 and r["poly"]), reverse=True)[:12], "samples": samples,
            "trusted_base": ["Coq 8.16.1 kernel; Properties_C01 / Properties_ORACLE close under the global context (axiom-free, see axioms_used)",
                             "root oracle bin/cert: extracted (ExtrOcamlBasic, ExtrOcamlNativeString) cert_check + queries, ocaml/cert_driver.ml line protocol, lib/oracle.py client; hints (mpmath/sympy) are untrusted and checked",
                             "harness/vf_solve.c exact export (hex mpf / rdpe / double) and lib/solve.py parser; lib/e2e.py inner/outer disc rounding (exact Fractions)",
